@@ -38,7 +38,7 @@ ARITH_NOTE = ("Trusted: TLC, spec/BigNat.tla + the definitions module, serde_jso
 CHECKS.update({
  "C08": dict(cat="model_checking", tech="trace validation (impl->spec): every recorded call of a primitive is checked by TLC against its mathematical definition in spec/WordArith.tla over BigNat.tla",
    text="Every word-level modular primitive and multi-word helper is called on (i) all operand pairs of 12 (quick) / all 126 (thorough) moduli below 2^7, (ii) boundary and random operands for the "
-        "smallest/largest/random/NTT-prime modulus of 13 (quick) / all 60 (thorough) bit lengths 2..61, (iii) 1..8-word integers with carry patterns; TLC evaluates the exact-integer definition "
+        "smallest/largest/random/NTT-prime modulus of 13 (quick) / all 60 (thorough) bit lengths 2..61, (iii) 1..8-word integers with carry patterns, (iv) xgcd / are_coprime / naf; TLC evaluates the exact-integer definition "
         "(r = a*b mod m as a*b = k*m + r /\\ r < m etc.) on every event and lists every event that fails.", ref="DESIGN.md 4/C08", note=ARITH_NOTE),
  "C14": dict(cat="model_checking", tech="trace validation (impl->spec): recorded write-call sequences and sizes of every catalogue object checked by TLC against the wire grammar Layout(shape) of spec/Serialize.tla",
    text="For 3 (quick) / 9 (thorough) parameter sets with residue widths 1..8 bytes (plus 1 / 3 parameter sets of the RNS-plaintext wrapper with 23 wrapper objects each), ~64 objects each (all serializable types, seeded and expanded, sizes 2/3/7, both representations, all three "
@@ -55,7 +55,7 @@ CHECKS.update({
  "C13": dict(cat="model_checking", tech="TLC enumerates the parameter universe of spec/Params.tla (Build action, design invariant PrefixClosed); every object is built through the real builder/HeContext::new and the recorded outcome validated by TLC against Pre, the chain rules and the constant definitions (trace validation)",
    text="Exhaustive small-parameter universe (quick ~23k, thorough ~10^6 objects: schemes x degrees incl. 0/3/non-power-of-two x moduli lists incl. composites, duplicates, non-NTT x plain moduli x security level x expansion x special-prime flag). "
         "TLC checks for every object: construction does not panic; parameters_set => documented preconditions on every level, chain = prefix moduli sets with indices decreasing to 0 and consistent prev/next links, "
-        "per-level constants equal their definitions, ids reproducible (rebuild and via serialized parameters) and collision-free; otherwise a specific error. Generated moduli: distinct primes of exact size = 1 mod 2N; primality at 25..60 bits decided by TLC through Miller-Rabin certificates (spec/Primes.tla, 12 bases, every modular step verified on exact integers).",
+        "per-level constants equal their definitions, ids reproducible (rebuild and via serialized parameters) and collision-free; otherwise a specific error. Generated moduli: distinct primes of exact size = 1 mod 2N; primality at 25..60 bits decided by TLC through Miller-Rabin certificates (spec/Primes.tla, 12 bases, every modular step verified on exact integers); is_prime judged in both directions on ~720 (~8000) values incl. Carmichael numbers and strong pseudoprimes; max_bit_count / bfv_default against the security table.",
    ref="DESIGN.md 4/C13", note="Trusted: TLC, spec/Params.tla, the projection in harness/src/c13.rs. Accepted contexts with 60-bit moduli do not fit native TLC integers and are outside this check (C01-C07 exercise them); SHA-256 collision freedom beyond the universe is assumed."),
  "C17": dict(cat="model_checking", tech="TLC model-checks spec/KeyCache.tla and spec/GaloisCache.tla (safety + liveness, deviation refuted; inductive invariants for any number of threads proved with TLAPS); every interleaving is replayed on real threads through a deterministic scheduler on the verif-hooks yield points; free runs validated against spec/Trace_Cache.tla",
    text="All interleavings of the lock phases of 2-3 threads (thorough: all requested-power combinations, 4 threads sampled) sharing one Decryptor / KeyGenerator / Galois tool: ~59k forced schedules (quick). After every step the yield site and the cache "
